@@ -9,6 +9,7 @@ import (
 	"os/exec"
 	"path/filepath"
 	"strings"
+	"sync"
 	"time"
 
 	"golang.org/x/tools/go/packages"
@@ -59,6 +60,24 @@ type Scratch struct {
 	cleaned bool
 }
 
+var (
+	liveMu sync.Mutex
+	live   = map[*Scratch]bool{}
+)
+
+// CleanupAll removes every live scratch directory (signal handler, exit path).
+func CleanupAll() {
+	liveMu.Lock()
+	var all []*Scratch
+	for s := range live {
+		all = append(all, s)
+	}
+	liveMu.Unlock()
+	for _, s := range all {
+		s.Cleanup()
+	}
+}
+
 func scratchBase() string {
 	if d := os.Getenv("VERIF_SCRATCH"); d != "" {
 		return d
@@ -73,6 +92,9 @@ func NewScratch(tag string) (*Scratch, error) {
 		return nil, err
 	}
 	s := &Scratch{Dir: dir, Repo: filepath.Join(dir, "repo")}
+	liveMu.Lock()
+	live[s] = true
+	liveMu.Unlock()
 	cmd := exec.Command("rsync", "-a", "--exclude=.git", RepoDir()+"/", s.Repo+"/")
 	if out, err := cmd.CombinedOutput(); err != nil {
 		s.Cleanup()
@@ -86,6 +108,9 @@ func (s *Scratch) Cleanup() {
 		return
 	}
 	s.cleaned = true
+	liveMu.Lock()
+	delete(live, s)
+	liveMu.Unlock()
 	if os.Getenv("VERIF_KEEP") != "" {
 		fmt.Fprintln(os.Stderr, "keeping scratch", s.Dir)
 		return
